@@ -81,6 +81,14 @@ func blahutNaive(channel [][]float64, p_init []float64, steps int,
 
   n := len(channel)
   m := len(channel[0])
+  for i := 0; i < n; i++ {
+    if len(channel[i]) != m {
+      panic("blahut(): rows of the channel matrix have different lengths!")
+    }
+  }
+  if len(p_init) != n {
+    panic("blahut(): length of p_init does not match the number of rows of the channel matrix!")
+  }
   p := blahut_naive_init_p(p_init)
   q := blahut_naive_init_q(n, m)
   r := make([]float64, n)
